@@ -19,6 +19,14 @@ def is_lit(x, v):
     return x.is_const() and x.const_value() == v
 
 
+def is_unit(x):
+    """the dimension is 1: literally, or provably under the current size assumptions (numpy broadcasts it then)"""
+    x = I(x)
+    if x.is_const():
+        return x.const_value() == 1
+    return CTX.entails(x == 1)
+
+
 def dims_equal(a, b):
     a, b = I(a), I(b)
     if a.same(b):
@@ -734,20 +742,20 @@ class SymNDArray:
             # numpy allows extra leading length-1 axes on the value
             extra = len(vshape) - len(vs)
             if extra > 0:
-                if not all(is_lit(s, 1) for s in vshape[:extra]):
+                if not all(is_unit(s) for s in vshape[:extra]):
                     raise ValueError('could not broadcast input array from shape %s into shape %s' % (vshape, vs))
             snapv = value.snap()
             off = max(extra, 0)
             vshape_t = vshape[off:]
             pad = len(vs) - len(vshape_t)
             for j, s in enumerate(vshape_t):
-                if not is_lit(s, 1) and not dims_equal(s, vs[pad + j]):
+                if not is_unit(s) and not dims_equal(s, vs[pad + j]):
                     raise ValueError('could not broadcast input array from shape %s into shape %s' % (vshape, vs))
 
             def val_fn(bufidx, vidx, snapv=snapv, vshape=vshape, off=off, pad=pad):
                 src = [I(0)] * len(vshape)
                 for j in range(off, len(vshape)):
-                    if not is_lit(vshape[j], 1):
+                    if not is_unit(vshape[j]):
                         src[j] = vidx[pad + j - off]
                 return to_value(snapv(tuple(src)), kind)
         elif is_scalar(value):
@@ -1110,26 +1118,29 @@ def broadcast_shapes(shapes):
     out = []
     for j in range(nd):
         dim = None
+        unit = None
         for s in shapes:
             k = j - (nd - len(s))
             if k < 0:
                 continue
             d = s[k]
-            if is_lit(d, 1):
+            if is_unit(d):
+                if unit is None or (I(unit).is_const() and not I(d).is_const()):
+                    unit = d          # keep the symbolic name of a size that merely happens to be 1 here
                 continue
             if dim is None:
                 dim = d
             elif not dims_equal(dim, d):
                 raise ValueError('operands could not be broadcast together with shapes %s' %
                                  ' '.join('(%s)' % ','.join(map(str, s)) for s in shapes))
-        out.append(I(1) if dim is None else I(dim))
+        out.append(I(dim) if dim is not None else (I(unit) if unit is not None else I(1)))
     return tuple(out)
 
 
 def bcast_getter(snap, shape, nd):
     """getter over the broadcast result index for an operand of `shape`"""
     off = nd - len(shape)
-    lit1 = [is_lit(s, 1) for s in shape]
+    lit1 = [is_unit(s) for s in shape]
 
     def get(idx, snap=snap, off=off, lit1=lit1):
         return snap(tuple(I(0) if lit1[j] else idx[off + j] for j in range(len(lit1))))
@@ -1437,8 +1448,8 @@ def _fit_block(b, kb, kind):
     bs = b.shape
     if b.scalar:
         return b
-    kcore = [j for j, s in enumerate(ks) if not is_lit(s, 1)]
-    bcore = [j for j, s in enumerate(bs) if not is_lit(s, 1)]
+    kcore = [j for j, s in enumerate(ks) if not is_unit(s)]
+    bcore = [j for j, s in enumerate(bs) if not is_unit(s)]
     if len(kcore) == len(bcore) and all(dims_equal(ks[i], bs[j]) for i, j in zip(kcore, bcore)):
         f = b.fn
         nb = len(bs)
@@ -1512,7 +1523,7 @@ class AffineMatcher:
                 conds.append(v < dim)
                 p.append(v)
             else:
-                if not is_lit(dim, 1):
+                if not is_unit(dim):
                     raise OutOfReach('index map does not determine an axis of size %s' % (dim,))
                 p.append(I(0))
         for c in conds:
